@@ -633,3 +633,41 @@ def gen_yl_history(rng, mods=None, with_alt=True):
         h.compile()
     h.meta = {"kinds": kinds}
     return h
+
+
+# ---- witnesses: the module sets of lean/LyModel/Ctx/Examples.lean, as real YANG ---------------------------------
+
+def W_A(): return Mod("aaa", None, feats=[Feat("f1"), Feat("f2", "f1")])
+def W_A19(): return Mod("aaa", "2019-01-01", feats=[Feat("f1")])
+def W_A20(): return Mod("aaa", "2020-01-01", feats=[Feat("f1")])
+def W_A20late(): return apply_edit(W_A20(), "identity")
+def W_Bbad(): return apply_edit(Mod("bbb", None, imports=[("aaa", None)], augments=["aaa"]), "default")
+def W_Bsyntax(): return apply_edit(Mod("bbb"), "truncate")
+def W_X(): return Mod("xxx", None, imports=[("aaa", "2019-01-01")])
+def W_C(): return Mod("ccc", None, imports=[("aaa", None)], augments=["aaa"])
+def W_Top(): return Mod("top", None, imports=[("aaa", None)])
+def W_B2(): return Mod("bbb", None, feats=[Feat("g1")])
+def W_B2new(): return Mod("bbb", "2021-03-03", feats=[Feat("g1")])
+
+
+def witnesses():
+    """name -> (finding id, History, index of the call that shows the defect)"""
+    w = {}
+    h = History(); a = h.add(W_A()); h.parse(a); h.impl("aaa", None, ["f2"]); w["F4"] = ("F4", h, 1)
+    h = History(); a = h.add(W_A()); t = h.add(W_Top()); h.parse(t); h.impl("aaa", None, ["f2"]); w["F4-imported"] = ("F4", h, 1)
+    h = History(); a = h.add(W_A()); h.parse(a); h.load("aaa", None, ["f2"]); w["F4-load"] = ("F4", h, 1)
+    h = History(EXPLICIT); a = h.add(W_A()); b = h.add(W_Bsyntax()); h.parse(a); h.parse(b); w["F51"] = ("F51", h, 1)
+    h = History(); a = h.add(W_A19()); h.parse(a); b = h.add(W_A20late()); h.parse(b); w["F50"] = ("F50", h, 1)
+    h = History(); a = h.add(W_A()); h.parse(a); h.data("aaa"); b = h.add(W_Bbad()); h.parse(b); w["F24"] = ("F24", h, 2)
+    h = History(touch=True); a = h.add(W_A()); h.parse(a); h.data("aaa"); b = h.add(W_Bbad()); h.parse(b); w["F24-touch"] = ("F24", h, 2)
+    h = History(); h.add(W_A19()); x = h.add(W_X()); h.parse(x); b = h.add(W_Bbad()); h.parse(b)
+    h.add(W_A20()); h.load("aaa", "2020-01-01"); c = h.add(W_C()); h.parse(c); w["F52"] = ("F52", h, 1)
+    h = History(); h.add(W_A19()); x = h.add(W_X()); h.parse(x); h.add(W_A20late()); t = h.add(W_Top()); h.parse(t)
+    w["F54"] = ("F54", h, 1)
+    bad = apply_edit(W_A20(), "include")
+    h = History(); h.add(W_A19()); x = h.add(W_X()); h.parse(x); h.add(bad); t = h.add(W_Top()); h.parse(t)
+    w["F54-crash"] = ("F54", h, 1)
+    h = History(); a = h.add(W_A()); b = h.add(W_B2()); h.parse(a); h.parse(b, ["g1"]); h.impl("bbb", None, []); w["F23"] = ("F23", h, 2)
+    h = History(EXPLICIT); a = h.add(W_A()); h.parse(a); h.compile(); h.impl("aaa", None, ["f1"]); w["F53"] = ("F53", h, 2)
+    h = History(); b = h.add(W_B2()); h.add(W_B2new()); h.parse(b); w["F55"] = ("F55", h, 0)
+    return w
